@@ -25,7 +25,7 @@ from c11 import HAND_SCHEMA
 
 PROP = "C03"
 PROP_FILE = "C03_Typecheck"
-THEOREMS = ['c03_sound_partial', 'c03_impossible_partial', 'c03_policy_sound_partial', 'c03_store_ok_from_checker']
+THEOREMS = ['c03_sound_partial', 'c03_impossible_partial', 'c03_policy_sound_partial', 'c03_strict_in_permissive_partial', 'c03_accepts_guarded', 'c03_subty_sound', 'c03_store_ok_from_checker']
 
 MANIFEST = {
     "text": "Executable Gallina typechecker `tc` transcribed arm by arm from validator/typecheck.rs (+ subtype / lub / "
@@ -38,15 +38,17 @@ MANIFEST = {
 
 # the constructors inside TypecheckProofs3.in_fragment (kept in sync by hand with coq/proofs/TypecheckProofs3.v)
 PROVED_FRAGMENT = {
-    "predicate": "TypecheckProofs3.in_fragment (syntactic)",
+    "predicate": "TypecheckMain.in_fragment (syntactic)",
     "inside": ["Lit (all literals)", "Var (principal, action, resource, context)", "And", "Or (capabilities on both sides)",
-               "UnApp Not", "UnApp Neg", "BinApp Eq", "BinApp Add", "BinApp Sub", "BinApp Mul",
-               "If c x y (x, y boolean-rooted: And/Or/Not/Eq/HasAttr/bool literal)",
+               "UnApp Not", "UnApp Neg", "UnApp IsEmpty", "BinApp Eq", "BinApp Less", "BinApp LessEq", "BinApp Add",
+               "BinApp Sub", "BinApp Mul", "BinApp Contains", "BinApp ContainsAll", "BinApp ContainsAny",
+               "If c x y (x, y any boolean-rooted form of the fragment: And/Or/Not/Eq/HasAttr/bool literal/Like/Is/IsEmpty/Less/LessEq/Contains*)",
                "HasAttr p a / GetAttr p a with p an access path (Var followed by GetAttr), records and entities, "
                "required and optional (capability-guarded) attributes", "Like", "Is"],
-    "outside": ["Slot", "Unknown", "If with non-boolean-rooted branches", "UnApp IsEmpty", "BinApp Less/LessEq/In/Contains/"
-                "ContainsAll/ContainsAny/GetTag/HasTag", "ExtCall", "GetAttr/HasAttr on non-path expressions", "SetE", "RecordE"],
+    "outside": ["Slot", "Unknown", "If with non-boolean-rooted branches", "BinApp In/GetTag/HasTag", "ExtCall", "GetAttr/HasAttr on non-path expressions", "SetE", "RecordE"],
     "theorems_for_both_modes": True,
+    "other_theorems": ["c03_strict_in_permissive_partial (same fragment)", "c03_accepts_guarded (judgement Simple => strict acceptance)",
+                       "c03_subty_sound (all types)"],
 }
 
 ALLOWED_ERRORS = {"EntityDoesNotExist", "IntegerOverflow", "FailedExtensionFunctionExecution"}
